@@ -11,12 +11,20 @@
                        one-entry context {"__entity": {type,id}} serialises (no refusal at the top
                        level) and the result is not a record when parsed back (finding
                        C10:context_top_level_reserved_key, replayed on the implementation)
-     c10_implicit_explicit_partial   PARTIAL: every implicit form of an entity reference and of
-                       an extension value parses, under the expected type, to the same datum as
-                       the explicit escape parsed without a type.  Missing: the lifting through
-                       set and record types (every per-node choice inside nested sets/records) and
-                       the entity/store level (c10_schema_rt, c10_store_rt of the design); those
-                       are covered by the correspondence and the implementation-level oracle only. *)
+     c10_context_rt_fixed     with the repair proposed for that finding (top-level keys checked like
+                       nested keys, `context_to_json_fixed`) the context round trip holds unconditionally
+     c10_entity_rt     entity (uid, attrs, tags, stored ancestors) -> JSON -> entity without schema
+                       returns the entity itself: same uid, attribute and tag values, ancestor list
+     c10_implicit_explicit   for every schema type built from bool/long/string/entity/extension,
+                       sets and CLOSED records (optional attributes present or absent), every JSON
+                       form `variant t v j` of a value v of type t — free per-node choice of
+                       {type,id} vs __entity, bare string vs {fn,arg} vs __extn, at any depth inside
+                       sets and records — parses under the type to v, and the explicit serialisation
+                       of v parses without a type to v as well.
+   Not proved (correspondence + implementation-level oracle only): schema-directed parsing at the
+   ENTITY level (c10_schema_rt: attribute-by-attribute dispatch on the schema's entity type, open
+   entity shapes, tags) and the STORE level (c10_store_rt: transitive closure, duplicates, the
+   schema's action entities); open record types (unreachable from schemas today). *)
 From Coq Require Import List Bool String.
 Open Scope string_scope.
 From Cedar Require Import EntJson EntJsonProofs.
@@ -45,19 +53,22 @@ Theorem c10_context_rt_refuted :
 Proof. exact context_rt_refuted. Qed.
 Print Assumptions c10_context_rt_refuted.
 
-Theorem c10_implicit_explicit_partial :
-  (forall t u, valid_name (jty u) = true ->
-     parse_ty (STEntity t) (juid_json u) = JOk (REntity u) /\
-     parse_ty (STEntity t) (JObj [(k_entity, juid_json u)]) = JOk (REntity u) /\
-     json_to_value None (JObj [(k_entity, juid_json u)]) = JOk (REntity u)) /\
-  (forall tyname ctor s, In (tyname, ctor) ext_constructors ->
-     let explicit := JObj [(k_extn, JObj [(k_fn, JStr ctor); (k_arg, JStr s)])] in
-     parse_ty (STExt tyname) (JStr s) = JOk (RCall ctor [RString s]) /\
-     parse_ty (STExt tyname) (JObj [(k_fn, JStr ctor); (k_arg, JStr s)]) = JOk (RCall ctor [RString s]) /\
-     parse_ty (STExt tyname) explicit = JOk (RCall ctor [RString s]) /\
-     json_to_value None explicit = JOk (RCall ctor [RString s])).
-Proof. split; [exact implicit_entity | exact implicit_ext]. Qed.
-Print Assumptions c10_implicit_explicit_partial.
+Theorem c10_context_rt_fixed : forall pairs j,
+  wf_rval (RRecord pairs) = true -> rval_evaluable (RRecord pairs) = true ->
+  context_to_json_fixed pairs = JOk j -> context_from_json None j = JOk pairs.
+Proof. exact context_rt_fixed. Qed.
+Print Assumptions c10_context_rt_fixed.
+
+Theorem c10_entity_rt : forall e j,
+  wf_entity e = true -> entity_to_json e = JOk j -> entity_from_json None j = EOk e.
+Proof. exact entity_rt. Qed.
+Print Assumptions c10_entity_rt.
+
+Theorem c10_implicit_explicit : forall t v j je,
+  variant t v j -> wf_rval v = true -> value_to_json v = JOk je ->
+  json_to_value (Some t) j = JOk v /\ json_to_value None je = JOk v.
+Proof. exact implicit_explicit. Qed.
+Print Assumptions c10_implicit_explicit.
 
 (* non-vacuity: a value with every constructor, odd record keys and a nested call is well formed,
    serialises, and comes back; a reserved key is refused *)
@@ -88,3 +99,53 @@ Example ex_implicit_in_record :
   = JOk (RRecord [(s2str "d", RCall (s2str "decimal") [RString (s2str "1.5")]);
                   (s2str "u", RSet [REntity (mkJuid (s2str "T") (s2str "a"))])]).
 Proof. vm_compute. reflexivity. Qed.
+
+(* a typed value with a nested set of entity references, an optional attribute left out, and three
+   different spellings of extension values: it has the variant below, so c10_implicit_explicit applies *)
+Definition ex_ty : sty :=
+  STRecord [ (s2str "d", (STExt (s2str "decimal"), true)); (s2str "o", (STLong, false))
+           ; (s2str "r", (STRecord [(s2str "ip", (STExt (s2str "ipaddr"), true))] false, true))
+           ; (s2str "u", (STSet (STSet (STEntity (s2str "T"))), false)) ] false.
+Definition ex_tv : rval :=
+  RRecord [ (s2str "d", RCall (s2str "decimal") [RString (s2str "1.5")])
+          ; (s2str "r", RRecord [(s2str "ip", RCall (s2str "ip") [RString (s2str "::1")])])
+          ; (s2str "u", RSet [RSet [REntity (mkJuid (s2str "T") (s2str "a")); REntity (mkJuid (s2str "T") (s2str "b"))]; RSet []]) ].
+Definition ex_tj : json :=
+  JObj [ (s2str "d", JStr (s2str "1.5"))
+       ; (s2str "r", JObj [(s2str "ip", JObj [(k_fn, JStr (s2str "ip")); (k_arg, JStr (s2str "::1"))])])
+       ; (s2str "u", JArr [JArr [juid_json (mkJuid (s2str "T") (s2str "a"));
+                                 JObj [(k_entity, juid_json (mkJuid (s2str "T") (s2str "b")))]]; JArr []]) ].
+Example ex_variant : variant ex_ty ex_tv ex_tj.
+Proof.
+  unfold ex_ty, ex_tv, ex_tj. apply V_rec.
+  - repeat constructor; cbn; intuition discriminate.
+  - apply RV_present. { apply V_ext_bare. cbn. auto. }
+    apply RV_absent. { reflexivity. }
+    apply RV_present.
+    { apply V_rec. { repeat constructor; cbn; intuition discriminate. }
+      apply RV_present. { apply V_ext_fnarg. cbn. auto. } apply RV_nil. }
+    apply RV_present.
+    { apply V_set. constructor.
+      - apply V_set. constructor. { apply V_ent_impl. reflexivity. }
+        constructor. { apply V_ent_expl. reflexivity. } constructor.
+      - constructor. { apply V_set. constructor. } constructor. }
+    apply RV_nil.
+Qed.
+Example ex_variant_wf : wf_rval ex_tv = true /\ exists je, value_to_json ex_tv = JOk je.
+Proof.
+  split; [vm_compute; reflexivity|].
+  let r := eval vm_compute in (value_to_json ex_tv) in match r with JOk ?x => exists x end.
+  vm_compute. reflexivity.
+Qed.
+
+Definition ex_entity : jentity :=
+  mkJentity (mkJuid (s2str "NS::T") (s2str "x y")) [(s2str "__entity", ex_value)]
+            [(s2str "t", RCall (s2str "datetime") [RString (s2str "2024-01-01")])]
+            [mkJuid (s2str "G") (s2str "g1"); mkJuid (s2str "G") (s2str "g2")].
+Example ex_entity_wf : wf_entity ex_entity = true.
+Proof. vm_compute. reflexivity. Qed.
+Example ex_entity_rt : exists j, entity_to_json ex_entity = JOk j /\ entity_from_json None j = EOk ex_entity.
+Proof.
+  let r := eval vm_compute in (entity_to_json ex_entity) in match r with JOk ?x => exists x end.
+  split; vm_compute; reflexivity.
+Qed.
